@@ -113,11 +113,16 @@ fn c01_lpc_inverse_o1_n3() {
 /// a writer that accepts everything and can be repositioned
 pub struct NullSeek {
     pub pos: u64,
+    /// number of seek calls that asked for a different position
+    pub moves: u32,
+    /// bytes accepted by write()
+    pub written: u64,
 }
 
 impl std::io::Write for NullSeek {
     fn write(&mut self, buf: &[u8]) -> std::io::Result<usize> {
         self.pos += buf.len() as u64;
+        self.written += buf.len() as u64;
         Ok(buf.len())
     }
     fn flush(&mut self) -> std::io::Result<()> {
@@ -127,8 +132,15 @@ impl std::io::Write for NullSeek {
 
 impl std::io::Seek for NullSeek {
     fn seek(&mut self, to: std::io::SeekFrom) -> std::io::Result<u64> {
-        if let std::io::SeekFrom::Start(p) = to {
-            self.pos = p;
+        match to {
+            std::io::SeekFrom::Start(p) => {
+                if p != self.pos {
+                    self.moves += 1;
+                }
+                self.pos = p;
+            }
+            std::io::SeekFrom::Current(0) => {}
+            _ => self.moves += 1,
         }
         Ok(self.pos)
     }
@@ -182,7 +194,7 @@ fn c15_sample_writer_new_validates() {
     let channels: u8 = kani::any();
     let total: Option<u64> = if kani::any() { Some(kani::any()) } else { None };
     let base_ok = bps >= 1 && bps <= 32 && rate < (1 << 20) && channels >= 1 && channels <= 8;
-    let r = FlacSampleWriter::new(NullSeek { pos: 0 }, plain_options(), rate, bps, channels, total);
+    let r = FlacSampleWriter::new(NullSeek { pos: 0, moves: 0, written: 0 }, plain_options(), rate, bps, channels, total);
     let total_ok = match total {
         None => true,
         Some(t) => channels != 0 && t % u64::from(channels) == 0 && t != 0 && t / u64::from(channels) < (1 << 36),
@@ -205,7 +217,7 @@ fn c15_byte_writer_new_validates() {
     let channels: u8 = kani::any();
     let total: Option<u64> = if kani::any() { Some(kani::any()) } else { None };
     let base_ok = bps >= 1 && bps <= 32 && rate < (1 << 20) && channels >= 1 && channels <= 8;
-    let r = FlacByteWriter::<_, crate::byteorder::LittleEndian>::new(NullSeek { pos: 0 }, plain_options(), rate, bps, channels, total);
+    let r = FlacByteWriter::<_, crate::byteorder::LittleEndian>::new(NullSeek { pos: 0, moves: 0, written: 0 }, plain_options(), rate, bps, channels, total);
     if r.is_ok() {
         assert!(base_ok);
         if let Some(t) = total {
@@ -235,7 +247,7 @@ fn c15_channel_writer_new_validates() {
         let bps: u32 = kani::any();
         let total: Option<u64> = if kani::any() { Some(kani::any()) } else { None };
         let base_ok = bps >= 1 && bps <= 32 && rate < (1 << 20) && CH[i] >= 1 && CH[i] <= 8;
-        let r = FlacChannelWriter::new(NullSeek { pos: 0 }, plain_options(), rate, bps, CH[i], total);
+        let r = FlacChannelWriter::new(NullSeek { pos: 0, moves: 0, written: 0 }, plain_options(), rate, bps, CH[i], total);
         let total_ok = match total {
             None => true,
             Some(t) => t < (1 << 36),
@@ -404,7 +416,7 @@ fn model_encoder(total: Option<u64>, written: u64, bytes: u64) -> Encoder<NullSe
     });
     let _ = &mut blocks;
     Encoder {
-        writer: Counter { stream: NullSeek { pos: 100 + bytes }, count: bytes },
+        writer: Counter { stream: NullSeek { pos: 100 + bytes, moves: 0, written: 0 }, count: bytes },
         start: 7,
         options: enc_opts(0, false),
         caches: EncodingCaches::default(),
@@ -418,8 +430,8 @@ fn model_encoder(total: Option<u64>, written: u64, bytes: u64) -> Encoder<NullSe
     }
 }
 
-// @harness prop=C09,C15 tier=quick expect=pass timeout=900 replay=driver
-// @units encode::Encoder::encode (seek point and sample bookkeeping, declared-length enforcement)
+// @harness prop=C09,C15,C14 tier=quick expect=pass timeout=900 replay=driver
+// @units encode::Encoder::encode (seek point and sample bookkeeping, declared-length enforcement, append-only output)
 // @stubs encode::encode_frame
 // @bound one encode() call of a 2-sample mono frame from an arbitrary encoder state (samples written so far < 2^36, bytes written so far < 2^40, declared total None or 1..2^36-1)
 // @oracle the seek point recorded for the frame names the sample count and the byte offset before the call and the frame's length; the sample counter advances by the frame length; exceeding a declared total is Err(ExcessiveTotalSamples) and nothing is handed to the frame encoder
@@ -446,6 +458,8 @@ fn c09_encoder_encode_bookkeeping() {
     let p = &e.seekpoints[0];
     assert!(p.sample_offset == written && p.byte_offset == Some(bytes) && p.frame_samples == 2);
     assert!(e.samples_written == written + 2);
+    // C14: before finalize the encoder only appends (no repositioning of the writer)
+    assert!(e.writer.stream.moves == 0 && e.writer.stream.pos == 100 + bytes + e.writer.stream.written);
     match total {
         Some(t) if written + 2 > t => {
             assert!(matches!(r, Err(Error::ExcessiveTotalSamples)));
@@ -697,3 +711,43 @@ fn c01_correlate_channels_b32_independent() {
 // arbitrary bits, through the real BitWriter/CrcWriter/Counter chain - did not
 // finish in 1200 s; zero padding, CRC-16 placement and the frame-size extrema
 // updated at the end of encode_frame are therefore outside every claim)
+
+// @harness prop=C14,C15 tier=quick expect=pass timeout=900 replay=driver
+// @units encode::Encoder::new (provisional header, remembered stream start)
+// @stubs metadata::write_blocks
+// @bound legal parameters (any 20-bit rate, depth 1..=32, 1..=8 channels, total None or 1..2^36-1), writer positioned at an arbitrary offset, no seek table/padding
+// @oracle the provisional STREAMINFO carries the declared parameters, no MD5 and no frame sizes yet; the stream start remembered for the final header rewrite is the writer's position at creation; the writer is never repositioned; the frame byte counter starts at 0
+#[kani::proof]
+#[kani::unwind(6)]
+#[kani::stub(write_blocks, stub_write_blocks)]
+fn c14_encoder_new_provisional_header() {
+    let rate: u32 = kani::any();
+    kani::assume(rate < (1 << 20));
+    let bps: u32 = kani::any();
+    kani::assume(bps >= 1 && bps <= 32);
+    let channels: u8 = kani::any();
+    kani::assume(channels >= 1 && channels <= 8);
+    let total: u64 = kani::any();
+    kani::assume(total < (1 << 36));
+    let at: u64 = kani::any();
+    kani::assume(at < (1 << 40));
+    let e = Encoder::new(
+        NullSeek { pos: at, moves: 0, written: 0 },
+        plain_options(),
+        rate,
+        SignedBitCount::<32>::try_from(bps).unwrap(),
+        channels,
+        NonZero::new(total),
+    );
+    assert!(e.is_ok());
+    let e = e.unwrap();
+    let si = e.blocks.streaminfo();
+    assert!(si.sample_rate == rate && u32::from(si.bits_per_sample) == bps && si.channels.get() == channels);
+    assert!(si.total_samples.map(|t| t.get()).unwrap_or(0) == total);
+    assert!(si.md5.is_none() && si.minimum_frame_size.is_none() && si.maximum_frame_size.is_none());
+    assert!(si.minimum_block_size == 4096 && si.maximum_block_size == 4096);
+    assert!(e.start == at && e.writer.count == 0 && e.writer.stream.moves == 0);
+    assert!(e.samples_written == 0 && e.frame_number.0 == 0 && !e.finalized);
+    assert!(e.options.use_rice2 == (bps > 16));
+    std::mem::forget(e);
+}
